@@ -85,6 +85,9 @@ func main() {
 	}
 	c.w.Set("catalogue_size", total)
 	c.special()
+	if !c.p.scoped {
+		c.unnamed()
+	}
 	c.wild(thorough)
 	c.w.Close()
 }
@@ -164,6 +167,13 @@ func (c *ctx) tableDiff(from, to *schema.Table, mask int) (cs []schema.Change, e
 // one runs SchemaDiff(build(from), build(to)) (alias: the same graph on both sides),
 // records the case and evaluates the oracle.
 func (c *ctx) one(id, class, desc string, from, to Schema, alias bool, mask int, exp []string, oracle bool, edits ...*Edit) {
+	c.oneAlt(id, class, desc, from, to, alias, mask, [][]string{exp}, oracle, edits...)
+}
+
+// oneAlt is one with several acceptable required change lists (the property leaves open
+// which of several indistinguishable objects is the dropped / added one): the differ's
+// answer must be one of them; a violation is reported against the first.
+func (c *ctx) oneAlt(id, class, desc string, from, to Schema, alias bool, mask int, alts [][]string, oracle bool, edits ...*Edit) {
 	g1 := build(c.p.dialect, from)
 	g2 := g1
 	if !alias {
@@ -198,7 +208,17 @@ func (c *ctx) one(id, class, desc string, from, to Schema, alias bool, mask int,
 	if !oracle {
 		return
 	}
-	c.judge(id, class, desc, cs, err, filterExp(exp, mask), edits)
+	if err == nil {
+		got := strings.Join(flat(cs), "\x00")
+		for _, a := range alts[1:] {
+			want := append([]string(nil), filterExp(a, mask)...)
+			sort.Strings(want)
+			if got == strings.Join(want, "\x00") {
+				return
+			}
+		}
+	}
+	c.judge(id, class, desc, cs, err, filterExp(alts[0], mask), edits)
 }
 
 // judge compares what Go returned with the changes the property requires.
@@ -417,6 +437,10 @@ func (c *ctx) single(bi int, b Schema, cat []Edit) {
 }
 
 func (c *ctx) tableCase(id, desc string, from, to Schema, tn string, exp []string, e *Edit) {
+	c.tableCaseAlt(id, desc, from, to, tn, [][]string{exp}, []*Edit{e})
+}
+
+func (c *ctx) tableCaseAlt(id, desc string, from, to Schema, tn string, alts [][]string, edits []*Edit) {
 	g1, g2 := build(c.p.dialect, from), build(c.p.dialect, to)
 	t1, ok1 := g1.Table(tn)
 	t2, ok2 := g2.Table(tn)
@@ -454,7 +478,17 @@ func (c *ctx) tableCase(id, desc string, from, to Schema, tn string, exp []strin
 	if len(cs) > 0 {
 		wrapped = []schema.Change{&schema.ModifyTable{T: t2, Changes: cs}}
 	}
-	c.judge(id, "tdiff", "TableDiff "+desc, wrapped, err, exp, []*Edit{e})
+	if err == nil {
+		got := strings.Join(flat(wrapped), "\x00")
+		for _, a := range alts[1:] {
+			want := append([]string(nil), a...)
+			sort.Strings(want)
+			if got == strings.Join(want, "\x00") {
+				return
+			}
+		}
+	}
+	c.judge(id, "tdiff", "TableDiff "+desc, wrapped, err, alts[0], edits)
 }
 
 func (c *ctx) multi(bi int, b Schema, cat []Edit, thorough bool) {
